@@ -13,6 +13,7 @@ prop("C01", "Assignment fidelity: the destination receives exactly the source va
     ("uint_to_uint", "assign_uint_uint", "unsigned values into unsigned fields"),
     ("absent_source_is_noop_or_zero", "assign_absent", "an absent source (nil, the null node, a null in the document) leaves the field alone or zeroes it: never a value from elsewhere"),
     ("vector_to_field_rule", "vector_to_field_rule", "RULE LEVEL, end to end: after a rule `obj.F = jso.path` (F a field of the destination struct of any type, path leading to a present value, no modifiers) the field holds exactly the cascade's conversion of that value -- characterised by the theorems below --, no other object and no variable changes, and the rule succeeds"),
+    ("literal_or_path_to_field_rule", "rule_step", "the same for both shapes of plain rule, `obj.F = \"literal\"` and `obj.F = jso.path`: the rule succeeds, the field holds the cascade's conversion of the value, the object is otherwise as before, no variable, counter or call log changes"),
     ("example_text_to_field", "e_assign_rule", "not vacuous: the text `obj.Status = jso.n`, parsed by the parser model, run on a context with a document and a destination bound, meets the theorem's hypotheses and leaves Status = 42"),
     ("plain_rule_is_lookup_then_write", "follow_plain_assign", "a rule `dst = src` without modifiers is Ctx.get of the source followed by Ctx.set of the destination"),
     ("static_rule_is_set_of_literal", "follow_static_assign", "a rule `dst = literal` is Ctx.set of the literal's text, wherever the rule stands"),
@@ -38,6 +39,7 @@ prop("C02", "Non-interference: a rule changes only its own destination", [
 
 prop("C03", "Conditionals execute exactly the branch the comparison selects", [
     ("cond_selects_branch", "cond_selects_branch", "a plain `if L op R` runs its first child iff the comparison holds, else its second (or nothing)"),
+    ("example_condition_literal_left", "e_cond_literal_left", "not vacuous: the parsed condition `if 5 < jso.n {..} else {..}` (literal on the left) meets the premises and its first branch runs"),
     ("right_literal_route", "node_cmp_right_static", "literal on the right: Ctx.cmp(L, op, R)"),
     ("left_literal_route", "node_cmp_left_static", "literal on the left: Ctx.cmp(R, swap op, L)"),
     ("swap_is_mirror", "swap_mirror", "op.Swap is the mirror image of the operator on any three-way comparison"),
@@ -68,7 +70,8 @@ prop("C04", "Counter loops run the body exactly for Go's counter sequence", [
 prop("C05", "Range loops visit every element once, in order, with key and value bound", [
     ("binds_key_and_value", "vloop_binds_key_and_value", "vector arrays: in every iteration k reads the element's index and v the element"),
     ("entered_iterations_are_a_prefix", "vloop_entries_are_a_prefix", "UNCONDITIONAL: whatever the bodies do (break, continue, fail, leave a break depth pending), the iterations entered are those of elements i, i+1, ..., i+m-1 for some m: in order, each element at most once, no gaps, each with its own element"),
-    ("visits_all_in_order", "vloop_visits_all", "without break/failure the body runs exactly once per element, in element order"),
+    ("visits_all_in_order", "vloop_visits_all", "if, started without a pending break depth, the body neither breaks nor fails nor leaves a depth pending, it runs exactly once per element, in element order"),
+    ("example_range_loop", "e_range_visits_all", "not vacuous: for the parsed loop `for k, v := range jso.a { probe(k, v) }` the premise holds from every context without a pending depth, so for every array the body is entered once per element, in order"),
     ("absent_source_zero_iterations", "rloop_absent", "an absent source gives zero iterations and no error"),
     ("unknown_variable_zero_iterations", "rloop_unknown_var", "so does an unknown variable"),
     ("struct_slices_bind", "oloop_binds_key_and_value", "struct slices: same bindings"),
@@ -98,6 +101,7 @@ prop("C07", "switch executes the first matching case, else default, never more",
     ("switch_statement_outcome", "switch_statement_outcome", "FULL STATEMENT (classic form): a switch statement does exactly one of -- stop with the error of a case value; run the body of the first case, in source order, whose value equals the subject, and no other body; when no case matches run the default body if there is one, else nothing"),
     ("scan_outcomes_condition_less", "switch_nocond_outcome", "FULL STATEMENT (condition-less form, `switch { case a == b: ... }`): the scan does exactly one of -- run the body of the first case whose comparison or helper holds, and no other; find no match (default arms are skipped by the scan); or stop with the error of a case's operands or helper. Induction over the children, any user functions"),
     ("scan_outcomes", "switch_classic_outcome", "the scan of the cases has exactly these three outcomes (induction over the cases)"),
+    ("example_switch", "e_switch_second_case", "not vacuous: a parsed three-arm switch over a document value; the scan passes the first case, matches the second, and only its body runs"),
     ("first_match_runs", "switch_first_match", "classic switch: the body that runs is that of the first case whose comparison holds; later cases are not looked at"),
     ("no_match_runs_nothing", "switch_no_match", "when no case matches nothing has run (only the default may)"),
     ("switch_statement", "follow_switch", "the switch statement: a matching case excludes the default; otherwise the first default runs"),
